@@ -695,6 +695,34 @@ where
                 }))
             };
 
+            let change_dust_threshold = cfg
+                .dust_output_policy
+                .dust_threshold()
+                .unwrap_or(cfg.default_dust_threshold);
+
+            // The dust policy applies to each change output, not to their sum: unless dust-valued
+            // change is explicitly allowed, do not split the change into more outputs than can
+            // each reach the dust threshold. The fee can only fall when fewer outputs are created,
+            // so the final per-output value is at least the one computed here.
+            let split_count = if cfg.dust_output_policy.action() == DustAction::AllowDustChange {
+                split_count
+            } else {
+                let proposed_change =
+                    (total_in - total_out_with_max_fee).unwrap_or(Zatoshis::ZERO);
+                (1..=split_count)
+                    .rev()
+                    .find(|n| {
+                        *proposed_change
+                            .div_with_remainder(
+                                NonZeroU64::new(u64::try_from(*n).expect("usize fits into u64"))
+                                    .expect("the range starts at 1"),
+                            )
+                            .quotient()
+                            >= change_dust_threshold
+                    })
+                    .unwrap_or(1)
+            };
+
             // If we don't have as many change outputs as we expected, recompute the fee.
             let total_fee = if split_count < target_change_count {
                 cfg.fee_rule
@@ -769,11 +797,6 @@ where
                     total_fee,
                 )
             };
-
-            let change_dust_threshold = cfg
-                .dust_output_policy
-                .dust_threshold()
-                .unwrap_or(cfg.default_dust_threshold);
 
             if total_change < change_dust_threshold {
                 match cfg.dust_output_policy.action() {
